@@ -17,10 +17,10 @@ import (
 )
 
 type evJ struct {
-	Op        string `json:"op"` // openl | openr | data | read | setmax | closer | closel
+	Op        string `json:"op"` // openl | openr | data | read | setmax | write | closer | closel
 	SID       string `json:"sid"`
 	BS        int    `json:"bs,omitempty"`
-	Accept    bool   `json:"accept,omitempty"`    // openl: the peer answers with a result
+	Accept    bool   `json:"accept,omitempty"`    // openl: the peer answers with a result; write: the peer acknowledges the data packet
 	ErrCond   string `json:"errcond,omitempty"`   // openl: the refusal
 	NoErrElem bool   `json:"noerrelem,omitempty"` // openl: error reply without an <error/> child
 	Listening bool   `json:"listening,omitempty"` // openr: addressed to the listener
@@ -48,6 +48,8 @@ type refConn struct {
 	max    int
 	open   bool // accepted and not closed
 	exists bool // the application holds a connection
+	iq     bool // data packets travel in iqs (and can be refused)
+	werr   bool // a packet of the local writer was refused: the error sticks
 }
 
 type refHandler struct{ conns map[string]*refConn }
@@ -185,7 +187,7 @@ func (x *runner) runReceiver(c recvCase, origin string) bool {
 			}
 			if accept {
 				rc := ref.get(sid)
-				*rc = refConn{bs: effBS(e.BS), max: ibb.MaxBufferSize, open: true, exists: true}
+				*rc = refConn{bs: effBS(e.BS), max: ibb.MaxBufferSize, open: true, exists: true, iq: true}
 			}
 			evTerms = append(evTerms, fmt.Sprintf("EOpenLocal %s %s %s", coqSid(sid), coqN(e.BS), hx.CoqBool(accept)))
 			obsTerms = append(obsTerms, "OOpen "+hx.CoqBool(ok))
@@ -240,7 +242,7 @@ func (x *runner) runReceiver(c recvCase, origin string) bool {
 					return abort("C15/open/accept-missing", "an accepted open request never reaches Accept")
 				}
 				rc := ref.get(sid)
-				*rc = refConn{bs: effBS(e.BS), max: ibb.MaxBufferSize, open: true, exists: true}
+				*rc = refConn{bs: effBS(e.BS), max: ibb.MaxBufferSize, open: true, exists: true, iq: e.Stanza != "message"}
 				if !e.Listening {
 					fail("C15/open/accepted-without-listener", fmt.Sprintf("event %d: an open request for an address nobody listens on is accepted", i))
 				}
@@ -427,15 +429,62 @@ func (x *runner) runReceiver(c recvCase, origin string) bool {
 			obsTerms = append(obsTerms, "ONone")
 			classes = append(classes, "receiver/setmax")
 
+		case "write":
+			conn := conns[sid]
+			rc := ref.conns[sid]
+			if conn == nil || rc == nil || !rc.exists {
+				continue
+			}
+			accept := e.Accept || !rc.iq // a message carrier has no acknowledgements: nothing can be refused
+			r.peer.setAuto(func(w wstanza) string {
+				if w.Name == "iq" && w.Type == "set" && w.Child == "data" && w.SID == sid && !accept {
+					return errorFor(w, "wait", "resource-constraint")
+				}
+				return ackAll(w)
+			})
+			var werr, ferr error
+			done := hx.WithTimeout(2*watchdog, func() {
+				_, werr = conn.Write([]byte("abc"))
+				if werr == nil {
+					ferr = conn.Flush()
+				}
+			})
+			r.peer.setAuto(ackAll)
+			if !done {
+				return abort("C15/write/hang", fmt.Sprintf("event %d: Write/Flush does not return although the peer answers every packet", i))
+			}
+			ok := werr == nil && ferr == nil
+			want := rc.open && !rc.werr && accept
+			switch {
+			case ok && !want && !rc.open:
+				fail("C15/write/after-close-succeeded", fmt.Sprintf("event %d: Write on a closed stream succeeds", i))
+			case ok && !want:
+				fail("C15/write/refused-but-succeeded", fmt.Sprintf("event %d: Write and Flush return nil although the peer refused the data packet (now or earlier)", i))
+			case !ok && want:
+				fail("C15/write/error", fmt.Sprintf("event %d: writing to an open stream fails although the peer acknowledges: %v %v", i, werr, ferr))
+			}
+			if rc.open && !rc.werr && !accept {
+				rc.werr = true
+			}
+			evTerms = append(evTerms, fmt.Sprintf("EWrite %s %s", coqSid(sid), hx.CoqBool(accept)))
+			obsTerms = append(obsTerms, "OWrite "+hx.CoqBool(ok))
+			classes = append(classes, "receiver/write/"+map[bool]string{true: "acked", false: "refused"}[accept])
+
 		case "closer":
 			id := r.id("cl")
 			from := r.peer.logLen()
 			r.peer.send(`<iq type="set" id="` + id + `" from="` + remoteAddr + `" to="` + localAddr + `"><close xmlns="` + ibb.NS + `" sid="` + sid + `"/></iq>`)
 			w, ok := r.peer.replyTo(id, from, watchdog)
-			if _, alive := r.alive(); !alive || !ok {
+			if msg, alive := r.alive(); !alive || !ok {
+				if rc := ref.conns[sid]; rc != nil && rc.open && rc.werr {
+					return abort("C15/close/peer-close-unanswered:stale-write-error", fmt.Sprintf("event %d: after a data packet of the local writer was refused, the peer's close request is never answered: the close handler returns the buffered writer's stale error, which makes Serve stop handling stanzas (Serve: %q)", i, msg))
+				}
 				return abort("C15/close/request-unanswered", fmt.Sprintf("event %d: a close request is not answered", i))
 			}
 			rc := ref.conns[sid]
+			if rc != nil && rc.open && rc.werr {
+				classes = append(classes, "receiver/closer/after-refused-write")
+			}
 			wasOpen := rc != nil && rc.open
 			obs := "OReply RAck"
 			if w.Type == "error" {
@@ -469,8 +518,24 @@ func (x *runner) runReceiver(c recvCase, origin string) bool {
 			if !hx.WithTimeout(2*watchdog, func() { err = conn.Close() }) {
 				return abort("C15/close/hang", fmt.Sprintf("event %d: Close does not return although the peer answers", i))
 			}
-			if err != nil {
+			if err != nil && !rc.werr {
+				// with a refused packet pending Close may report that error (it is
+				// the writer's next call), but it must still close the stream: the
+				// events that follow check that
 				fail("C15/close/error", fmt.Sprintf("event %d: Close fails: %v", i, err))
+			}
+			if rc.werr {
+				classes = append(classes, "receiver/closel/after-refused-write")
+				// the peer must have been told
+				told := false
+				for _, l := range r.peer.snapshot() {
+					if l.Name == "iq" && l.Child == "close" && l.SID == sid {
+						told = true
+					}
+				}
+				if !told && rc.open {
+					fail("C15/close/peer-not-told:stale-write-error", fmt.Sprintf("event %d: Close with a refused data packet pending returns (%v) without sending the close request: the peer keeps the stream open for ever", i, err))
+				}
 			}
 			rc.open = false
 			closes++
@@ -724,6 +789,10 @@ func genReceiver(r *hx.Rand) recvCase {
 						}
 					}
 				}
+			}
+		case p == 16 && r.Chance(1, 2): // the application writes a block; now and then the peer refuses it
+			if rc != nil && rc.exists {
+				ev = append(ev, evJ{Op: "write", SID: sid, Accept: !r.Chance(2, 5)})
 			}
 		case p < 18: // read
 			if rc != nil && rc.exists && (len(rc.buf) > 0 || !rc.open) {
